@@ -2440,6 +2440,16 @@ hsStateDetermined:
             if (fragLen != hsLen)
             {
 /*
+                Ignore empty fragments of a non-empty message.  They carry
+                no data, and a stored zero-length fragment header would make
+                dtlsHsHashFragMsg() loop for ever (it never advances the
+                offset past such a header).
+ */
+                if (fragLen == 0)
+                {
+                    return MATRIXSSL_SUCCESS;
+                }
+/*
                 Have a fragmented message here.  Allocate if first time
                 seen and assign msn.  Can only deal with single fragmented
                 message at a time.
